@@ -94,7 +94,10 @@ class NondetStream:
     def choices(self, population, weights=None, *, cum_weights=None, k=1):
         population = list(population)
         if cum_weights is not None:
-            raise Unmodelled("choices(cum_weights=)")
+            if weights is not None:
+                raise TypeError('Cannot specify both weights and cumulative weights')
+            cw = list(cum_weights)       # same law as weights = successive differences
+            weights = [cw[0]] + [b - a for a, b in zip(cw, cw[1:])]
         out = []
         for _ in range(k):
             if weights is None:
@@ -331,6 +334,33 @@ def _replacements(extra=None):
     return rep
 
 
+_MISSING = object()
+
+
+class _SymFloatMeta(type):
+    def __instancecheck__(cls, x):
+        return isinstance(x, float)
+
+    def __subclasscheck__(cls, c):
+        return issubclass(c, float)
+
+    def __eq__(cls, o):
+        return o is float or o is cls
+
+    def __hash__(cls):
+        return hash(float)
+
+
+class SymFloat(float, metaclass=_SymFloatMeta):
+    """what the name `float` means inside the modules under test during symbolic runs: float(x) keeps symbolic reals and exact
+    rationals as they are (a conversion to the float type would realise the value), everything else is the builtin.
+    As a dtype / in isinstance / compared with the builtin it behaves as `float`."""
+    def __new__(cls, x=0.0):
+        if is_sym(x) or isinstance(x, Fraction):
+            return x
+        return float(x)
+
+
 @contextlib.contextmanager
 def installed(prefixes=('msdm.',), extra=None, only=None):
     """swap numpy / random / math / scipy references held in the globals of the modules under
@@ -351,13 +381,19 @@ def installed(prefixes=('msdm.',), extra=None, only=None):
             if r is not None:
                 undo.append((d, k, v))
                 d[k] = r
+        if 'float' not in d:
+            d['float'] = SymFloat
+            undo.append((d, 'float', _MISSING))
     TAINT.reads.clear()
     TAINT.writes.clear()
     try:
         yield
     finally:
         for d, k, v in undo:
-            d[k] = v
+            if v is _MISSING:
+                d.pop(k, None)
+            else:
+                d[k] = v
 
 
 @contextlib.contextmanager
@@ -539,6 +575,11 @@ class DetStream:
 
     def choices(self, population, weights=None, *, cum_weights=None, k=1):
         population = list(population)
+        if cum_weights is not None:
+            if weights is not None:
+                raise TypeError('Cannot specify both weights and cumulative weights')
+            cw = list(cum_weights)
+            weights = [cw[0]] + [b - a for a, b in zip(cw, cw[1:])]
         out = []
         for _ in range(k):
             if weights is None:
